@@ -85,7 +85,7 @@ def _two_pass(ctx, F, fn, pr, fl, main, rule, is_p, is_b, lt_edges, le_edges, as
         vecs = set()
         for bi, t in fn.calls():
             if bi in main.body and t["callee"].get("name") == "push":
-                v = P.strip(pr.operand(t["args"][1]))
+                v = P.strip(P.narrow_deep(P.strip(pr.operand(t["args"][1]))))
                 if v[0] == "agg" and v[1].startswith("adt:" + PLAYER):
                     vecs.add(P.strip(pr.operand(t["args"][0])))
         hand_k = None
@@ -112,7 +112,9 @@ def _two_pass(ctx, F, fn, pr, fl, main, rule, is_p, is_b, lt_edges, le_edges, as
             else:
                 return False
             return h[0] == "field" and h[2] == hand_k and P.strip(h[1]) == item
-        if len(vecs) != 1 or P.strip(src2) not in vecs:
+        # (the collected vector may have travelled through `Some(v)?` / `ControlFlow::Continue(v)`: a downcast of a freshly built
+        # aggregate yields its field)
+        if len(vecs) != 1 or (P.strip(src2) not in vecs and P.strip(P.narrow_deep(P.strip(src2))) not in vecs):
             why = "the flag loop does not run over the players collected by the first loop"
         elif any(c.rsplit("::", 1)[-1] in ("skip", "take", "rev", "filter", "step_by", "zip", "filter_map", "take_while", "skip_while")
                  for c in chain2):
@@ -162,7 +164,7 @@ def _min_chain_ok(F, fn, pr, min_call, vecs, hand_k, main, flag_loop):
         return False
     src, chain = L.iterator_chain(min_call[2][0])
     names = [c.rsplit("::", 1)[-1] for c in chain]
-    if P.strip(src) not in vecs or names.count("map") != 1 or any(n not in ("iter", "into_iter", "map", "deref", "copied") for n in names):
+    if (P.strip(src) not in vecs and P.strip(P.narrow_deep(P.strip(src))) not in vecs) or names.count("map") != 1 or any(n not in ("iter", "into_iter", "map", "deref", "copied") for n in names):
         return False
     mp = [x for x in P.walk(min_call[2][0]) if x[0] == "call" and x[1].rsplit("::", 1)[-1] == "map" and len(x[2]) == 2]
     if len(mp) != 1:
